@@ -192,6 +192,10 @@ def check_call(p, name, base0, other, call, depth_tag=""):
             sub = blk.into_circuit()
             if len(sub.outputs) != len(other.outputs):
                 problems.append("extracted block has a different number of outputs")
+            elif len(set(mapping[oi] for oi in other.inputs)) == len(other.inputs) and (len(set(sub.inputs)) != len(sub.inputs) or circ.wf_problems(sub)):
+                # (connectors that identify two inputs of the attached circuit with one base gate are left out: the
+                # block then lists that gate twice by construction)
+                problems.append(f"extracted block is not a well-formed circuit: inputs {list(sub.inputs)} {circ.wf_problems(sub)[:2]}")
             else:
                 ozs = {lab: z3.Bool(f"o{i}") for i, lab in enumerate(other.inputs)}
                 osym = {lab: symeval.SymState(v, False) for lab, v in ozs.items()}
@@ -242,6 +246,7 @@ def check_call(p, name, base0, other, call, depth_tag=""):
             "if not bad and call['name']:\n"
             "    try:\n"
             "        sub=base.get_block(call['name']).into_circuit()\n"
+            "        if len(set(mp[k] for k in other.inputs))==len(other.inputs) and (len(set(sub.inputs))!=len(sub.inputs) or circ.wf_problems(sub)): bad.append(('extracted block ill formed', list(sub.inputs)))\n"
             "        for x in itertools.product((False,True), repeat=len(other.inputs)):\n"
             "            a=dict(zip(other.inputs,x)); eo_=ref_concrete(circ.netlist_of(other),a)\n"
             "            sb=sub.evaluate_circuit({mp[k]:v for k,v in a.items()})\n"
@@ -423,6 +428,8 @@ def unit(p, item, tier, seed):
             return circgen.random_circuit(rnd, rnd.randint(1, 3), rnd.randint(1, 5), max_arity=3, labels=labels,
                                           n_outputs=rnd.randint(1, 3))
         base, other = pick("b"), pick("o")
+        if rnd.random() < 0.25:
+            other = copy.deepcopy(other)  # gate types equal to, but not identical with, the module constants
         if rnd.random() < 0.3:
             circgen.add_random_blocks(other, rnd, 1)
         for call in gen_calls(rnd, base, other, 6):
